@@ -62,6 +62,7 @@ let fwd_tbl = buf_forward
 
 let run () =
   let cases = ref 0 and steps = ref 0 and bad = ref 0 and nontriv = ref 0 in
+  let printed : (string, int) Hashtbl.t = Hashtbl.create 8 in
   let seen = Hashtbl.create 4096 in
   let dist = Hashtbl.create 64 in
   let bump k = Hashtbl.replace dist k (1 + try Hashtbl.find dist k with Not_found -> 0) in
@@ -74,8 +75,11 @@ let run () =
       let fresh = not (Hashtbl.mem seen key) in
       if fresh then Hashtbl.add seen key ();
       let nontrivial = ref false in
-      let reported = ref false in
-      let report kind detail = incr bad; if not !reported && !bad <= 60 then (reported := true; Printf.printf "MISMATCH %s %s :: %s\n" kind detail line) in
+      (* one line per case and PROPERTY (first three characters of the kind), at most 60 lines per property *)
+      let reported : (string, unit) Hashtbl.t = Hashtbl.create 4 in
+      let report kind detail = incr bad; let pre = String.sub kind 0 (min 3 (String.length kind)) in
+        let c = (try Hashtbl.find printed pre with Not_found -> 0) in
+        if not (Hashtbl.mem reported pre) && c < 60 then (Hashtbl.replace reported pre (); Hashtbl.replace printed pre (c + 1); Printf.printf "MISMATCH %s %s :: %s\n" kind detail line) in
       (try
         let st = ref (parse_tree tree) in
         (match !st with Leaf _ -> () | _ -> nontrivial := true);
